@@ -889,3 +889,180 @@ Qed.
 Theorem life_inv_step : forall nt T s a s', wf_net nt = true -> inv_shape nt s -> inv_life' nt s ->
   step nt T s a = Ok s' -> inv_life' nt s'.
 Proof. exact life'_step. Qed.
+
+(* ------------------------------------------------------------------ C03: the shutdown cascade, corollaries *)
+(* C03: Shutdown begins only after every processing call of the node has returned (no worker is idle, in
+   Process or sending), and no event is handed to the node afterwards *)
+Theorem shutdown_after_calls : forall nt T s n, wf_net nt = true -> reachable nt T s ->
+  n < length nt -> once (node s n) <> ONone ->
+  forallb wpast (ws (node s n)) = true /\ forall w, step nt T s (Deq n w) = NotEnabled.
+Proof.
+  intros nt T s n Hwf Hr Hn Ho.
+  destruct (life_inv_reachable nt T s Hwf Hr) as [_ Hl]. destruct Hl as (L1 & _).
+  specialize (L1 n Hn Ho). split; auto.
+  intros w. cbn [step]. destruct (nth_error (ws (node s n)) w) as [[]|] eqn:Hg; try reflexivity.
+  pose proof (forallb_nth_error _ _ _ _ _ L1 Hg). discriminate.
+Qed.
+
+(* the once, once entered, stays entered: "afterwards" in [shutdown_after_calls] covers every later state *)
+Lemma once_entered_stable_step : forall nt T s a s' n, step nt T s a = Ok s' ->
+  once (node s n) <> ONone -> once (node s' n) <> ONone.
+Proof.
+  intros nt T s a s' n H Ho.
+  assert (Hset : forall s0 m x, once (node s0 n) <> ONone -> (m = n -> once x <> ONone) ->
+                                once (node (set_node s0 m x) n) <> ONone).
+  { intros s0 m x H0 Hx. destruct (Nat.eq_dec m n) as [->|Hm].
+    - destruct (Nat.lt_ge_cases n (length (nodes s0))).
+      + rewrite node_set_node_eq by assumption. auto.
+      + rewrite node_set_node_oob by assumption. auto.
+    - rewrite node_set_node_neq by assumption. auto. }
+  assert (Hts : forall c it s1, try_send nt s c it = Sent s1 -> once (node s1 n) <> ONone).
+  { intros c it s1 E. apply try_send_sent in E. destruct E as (_ & Hsl & _).
+    destruct (Hsl n) as (_ & b & _). congruence. }
+  assert (Hca : forall cs s1, close_all s cs = Some s1 -> once (node s1 n) <> ONone).
+  { intros cs s1 E. apply close_all_some in E. destruct E as (_ & Hsb & _).
+    destruct (Hsb n) as (_ & b & _). congruence. }
+  destruct a; cbn [step] in H.
+  - destruct (src s); try discriminate. destruct (mn s); try discriminate. injection H as <-. exact Ho.
+  - destruct (src s); try discriminate. injection H as <-. exact Ho.
+  - destruct (src s); try discriminate. injection H as <-. exact Ho.
+  - destruct (src s); try discriminate. injection H as <-. exact Ho.
+  - destruct (mn s) as [|it [|r rs]| | |]; try discriminate.
+    destruct (try_send nt s r it) eqn:E; try discriminate. injection H as <-. apply (Hts _ _ _ E).
+  - destruct (mn s); try discriminate. destruct (src s); try discriminate. injection H as <-. exact Ho.
+  - destruct (mn s); try discriminate. destruct (close_all s (roots nt)) eqn:E; try discriminate.
+    injection H as <-. apply (Hca _ _ E).
+  - destruct (mn s); try discriminate. destruct (all_exited s); try discriminate. injection H as <-. exact Ho.
+  - destruct (mn s); try discriminate. destruct (_ <=? _); try discriminate. injection H as <-. exact Ho.
+  - injection H as <-. exact Ho.
+  - destruct (nth_error (ws (node s n0)) w) as [[]|]; try discriminate.
+    destruct (q (node s n0)); try discriminate. injection H as <-.
+    rewrite node_log. apply Hset; auto. intros ->. exact Ho.
+  - destruct (nth_error (ws (node s n0)) w) as [[]|]; try discriminate.
+    destruct (outcome_ok _ _ _); try discriminate.
+    destruct o as [[|e es]| |]; injection H as <-; rewrite node_log; apply Hset; auto; intros ->; exact Ho.
+  - destruct (nth_error (ws (node s n0)) w) as [[| |[|[c it] rest]| | | | |]|]; try discriminate.
+    destruct (try_send nt s c it) as [s1| |] eqn:E; try discriminate. injection H as <-.
+    apply Hset; [apply (Hts _ _ _ E)|]. intros ->. autorewrite with fb. apply (Hts _ _ _ E).
+  - destruct (nth_error (ws (node s n0)) w) as [[]|]; try discriminate.
+    destruct (q (node s n0)); try discriminate. destruct (closed (node s n0)); try discriminate. injection H as <-.
+    apply Hset; auto. intros ->. exact Ho.
+  - destruct (nth_error (ws (node s n0)) w) as [[]|]; try discriminate.
+    destruct (forallb _ _); try discriminate. injection H as <-.
+    apply Hset; auto. intros ->. exact Ho.
+  - destruct (nth_error (ws (node s n0)) w) as [[]|]; try discriminate.
+    destruct (once (node s n0)); try discriminate. injection H as <-.
+    rewrite node_log. apply Hset; auto. intros _. autorewrite with fb. discriminate.
+  - destruct (nth_error (ws (node s n0)) w) as [[]|]; try discriminate.
+    destruct (inflight (node s n0)); try discriminate. destruct (existsb _ _); try discriminate. injection H as <-.
+    rewrite node_log. apply Hset; auto. intros ->. exact Ho.
+  - destruct (nth_error (ws (node s n0)) w) as [[]|]; try discriminate.
+    destruct (close_all s (targets (info nt n0))) as [s1|] eqn:E; try discriminate. injection H as <-.
+    apply Hset; [apply (Hca _ _ E)|]. intros _. autorewrite with fb. discriminate.
+  - destruct (nth_error (ws (node s n0)) w) as [[]|]; try discriminate.
+    destruct (once (node s n0)); try discriminate. injection H as <-.
+    apply Hset; auto. intros ->. exact Ho.
+  - destruct (remove_one it (inflight (node s n0))); try discriminate.
+    destruct (outcome_ok _ _ _); try discriminate. injection H as <-.
+    rewrite node_log.
+    match goal with |- context [set_node s n0 ?x] => assert (G : once (node (set_node s n0 x) n) <> ONone) end.
+    { apply Hset; auto. intros ->. autorewrite with fb. exact Ho. }
+    destruct (deliveries nt n0 it o); exact G.
+  - destruct (nth_error (cbs s) i) as [[m [|[c it] rest]]|]; try discriminate.
+    destruct (try_send nt s c it) as [s1| |] eqn:E; try discriminate. injection H as <-.
+    rewrite node_set_cbs. apply (Hts _ _ _ E).
+Qed.
+
+Theorem once_entered_stable : forall nt T sch s s' n, run nt T s sch = Ok s' ->
+  once (node s n) <> ONone -> once (node s' n) <> ONone.
+Proof.
+  induction sch as [|a sch IH]; intros s s' n H Ho; cbn [run] in H.
+  - injection H as <-. exact Ho.
+  - destruct (step nt T s a) as [s1| |] eqn:E; try discriminate.
+    eapply IH; eauto. eapply once_entered_stable_step; eauto.
+Qed.
+
+(* C03: children and handler stay open until the node's Shutdown has returned and the once completes *)
+Theorem kids_open_until_shutdown_returns : forall nt T s n c, wf_net nt = true -> reachable nt T s ->
+  n < length nt -> In c (targets (info nt n)) -> once (node s n) <> ODone -> closed (node s c) = false.
+Proof.
+  intros nt T s n c Hwf Hr Hn Hc Ho.
+  destruct (life_inv_reachable nt T s Hwf Hr) as [_ Hl]. destruct Hl as (_ & _ & _ & _ & _ & L6 & _).
+  destruct (closed (node s c)) eqn:E; auto. destruct (Ho (L6 n c Hn Hc E)).
+Qed.
+
+(* C03: so a delivery from inside Shutdown (an async node flushing: a Callback between OnceEnter and
+   ShutdownReturn) cannot hit a closed channel; in fact every delivery any goroutine has still to make
+   targets an open channel *)
+Theorem pending_targets_open : forall nt T s, wf_net nt = true -> reachable nt T s ->
+  (forall cb d, In cb (cbs s) -> In d (snd cb) -> closed (node s (fst d)) = false)
+  /\ (forall n w p d, n < length nt -> nth_error (ws (node s n)) w = Some (WSend p) -> In d p ->
+        closed (node s (fst d)) = false)
+  /\ (forall it rs r, mn s = MDeliver it rs -> In r rs -> closed (node s r) = false).
+Proof.
+  intros nt T s Hwf Hr.
+  destruct (life_inv_reachable nt T s Hwf Hr) as [_ Hl].
+  destruct Hl as (L1 & L2 & L3 & L4 & L5 & L6 & L7 & L8 & L9a & L9b & L9c).
+  repeat split.
+  - intros cb d Hcb Hd. destruct (closed (node s (fst d))) eqn:E; auto. exfalso.
+    destruct (L8 _ Hcb) as [Hn _].
+    specialize (L6 _ _ Hn (L9b _ _ Hcb Hd) E).
+    destruct (L5 _ Hn (or_introl L6)) as [_ Hex].
+    pose proof (existsb_false_In _ _ _ _ Hex Hcb) as Hown. unfold owns in Hown.
+    rewrite Nat.eqb_refl in Hown. discriminate.
+  - intros n w p d Hn Hg Hd. destruct (closed (node s (fst d))) eqn:E; auto. exfalso.
+    destruct (L9a n w p Hn Hg) as [_ Hp].
+    specialize (L6 _ _ Hn (Hp d Hd) E).
+    assert (Ho : once (node s n) <> ONone) by congruence.
+    pose proof (forallb_nth_error _ _ _ _ _ (L1 n Hn Ho) Hg). discriminate.
+  - intros it rs r Hm Hin. destruct (closed (node s r)) eqn:E; auto. exfalso.
+    destruct (L9c _ _ Hm) as [_ Hrs]. specialize (L7 r (Hrs r Hin) E).
+    unfold main_past_loop in L7. rewrite Hm in L7. discriminate.
+Qed.
+
+(* C03: exactly-once: the once-function is entered at most once per node (holds in every state) *)
+Theorem once_enter_once : forall nt T s n, once (node s n) <> ONone -> forall w, step nt T s (OnceEnter n w) = NotEnabled.
+Proof.
+  intros nt T s n Ho w. cbn [step].
+  destruct (nth_error (ws (node s n)) w) as [[]|]; try reflexivity.
+  destruct (once (node s n)); try reflexivity. contradiction.
+Qed.
+
+(* C03: clean end: if main is MDone without timeout then no callback thread exists, every worker of every
+   node has exited and nothing is in flight; every node THAT HAS WORKERS has completed its once, and its
+   channel is closed and empty.  (A node configured with zero workers never runs its once and never
+   drains its channel: see [clean_done_zero_workers] below, so the restriction is necessary.) *)
+Theorem clean_done : forall nt T s, wf_net nt = true -> reachable nt T s -> mn s = MDone -> timedout s = false ->
+  cbs s = []
+  /\ forall n, n < length nt ->
+       forallb wexit (ws (node s n)) = true /\ inflight (node s n) = []
+       /\ (0 < nworkers (info nt n) ->
+             once (node s n) = ODone /\ q (node s n) = [] /\ closed (node s n) = true).
+Proof.
+  intros nt T s Hwf Hr Hm Ht.
+  destruct (life'_reachable nt T s Hwf Hr) as [[Hlen Hws] I].
+  assert (Hex : forall n, n < length nt -> forallb wexit (ws (node s n)) = true).
+  { intros n Hn. apply forallb_of_nth_error. intros i a Hi. rewrite (i_gx _ _ I Hm Ht n i a Hn Hi). reflexivity. }
+  assert (Hnode : forall n, n < length nt ->
+            inflight (node s n) = [] /\ existsb (owns n) (cbs s) = false
+            /\ (0 < nworkers (info nt n) -> once (node s n) = ODone /\ q (node s n) = [] /\ closed (node s n) = true)).
+  { intros n Hn. pose proof (i_nodes _ _ I n Hn) as Hok. unfold node_ok in Hok.
+    destruct (ws (node s n)) as [|w0 wr] eqn:Hw.
+    - destruct (nx2 _ _ _ _ _ _ _ _ Hok eq_refl) as [a b]. split; auto. split; auto.
+      intros Hpos. specialize (Hws n Hn). rewrite Hw in Hws. cbn in Hws. lia.
+    - assert (Hg : nth_error (w0 :: wr) 0 = Some w0) by reflexivity.
+      assert (w0 = WExit). { rewrite <- Hw in Hg. apply (i_gx _ _ I Hm Ht n 0 w0 Hn Hg). }
+      subst w0.
+      pose proof (n4 _ _ _ _ _ _ _ _ Hok 0 Hg) as Ho.
+      destruct (n5a _ _ _ _ _ _ _ _ Hok Ho) as [a b].
+      destruct (n2 _ _ _ _ _ _ _ _ Hok 0 _ Hg eq_refl) as [c d].
+      repeat split; auto. }
+  split.
+  - destruct (cbs s) as [|cb l] eqn:Hc; auto. exfalso.
+    assert (Hin : In cb (cbs s)) by (rewrite Hc; left; auto).
+    destruct (i_g8 _ _ I cb Hin) as [Hn _].
+    destruct (Hnode _ Hn) as (_ & b & _). rewrite Hc in Hin.
+    pose proof (existsb_false_In _ _ _ _ b Hin) as Hown. unfold owns in Hown.
+    rewrite Nat.eqb_refl in Hown. discriminate.
+  - intros n Hn. destruct (Hnode n Hn) as (a & _ & c). auto.
+Qed.
